@@ -12,7 +12,6 @@ Definition marker (fr : frame) : bool :=
   | FDQtake _ | FDQdeq _ | FDQrequeue _ _ _ | FDQtake2 _ _ | FDQwfw _ _ | FDQstore _ _ | FDQwfp _ _
   | FDQempty1 _ | FDQempty2 _ | FDQidle _
   | FJob _ _ _ => true
-  | FPanic r => r
   | _ => false
   end.
 Definition parkfr (fr : frame) : bool := match fr with FROcheck _ | FROpark _ => true | _ => false end.
@@ -79,7 +78,7 @@ Qed.
 
 Definition workfr (fr : frame) : bool := marker fr && negb (parkfr fr).
 Lemma cntf_split st : cntf marker st = cntf parkfr st + cntf workfr st.
-Proof. induction st as [|x st IH]; cbn; [done|]. rewrite IH. unfold workfr. destruct x; cbn; try lia. match goal with b : bool |- _ => destruct b end; cbn; lia. Qed.
+Proof. induction st as [|x st IH]; cbn; [done|]. rewrite IH. unfold workfr. destruct x; cbn; lia. Qed.
 Lemma npl_split L : npl marker L = npl parkfr L + npl workfr L.
 Proof. induction L as [|x L IH]; cbn; [done|]. rewrite IH, cntf_split. lia. Qed.
 
